@@ -5,18 +5,22 @@ not split cells, alignment comes from the delimiter row".
 Only property statements live here.  The model of `markdown/extensions/tables.py` is
 `MdVerif/Model/Ext/Tables.lean` (`split` = `_split`, `splitRow` = `_split_row`, `buildRow` = the cell texts of
 `_build_row`, `alignOf` = the alignment loop of `run`, `tableTest` = `test`, `tableRun` = `run`); the vocabulary of
-the statements (`Plain`, `EscCell`, `CodeBody`, `ticks`, `dashes`, `spaces`, `joinPipe`) is `MdVerif/Spec/Tables.lean`;
+the statements (`Plain`, `EscCell`, `CodeBody`, `ticks`, `escBackslashes`, `dashes`, `spaces`, `joinPipe`) is
+`MdVerif/Spec/Tables.lean`;
 helper lemmas are in `MdVerif/Lemmas/Tables.lean`.  Model and code are compared by `harness/corr/tables.py`.
 
 What is proved, for inputs of any length:
 * rows: `_build_row` makes exactly as many cells as there are columns (short rows padded with empty cells, long rows
   cut), and in a block accepted by `test` that number is the number of cells of the header row;
-* splitting: in a row whose cells hold plain characters and escaped pipes `\|`, the row splits exactly at the
-  unescaped pipes; the pipes inside one code span (`n` ticks … `n` ticks, no tick or backslash inside) do not split;
+* splitting: in a row whose cells hold plain characters, escaped pipes `\|` and escaped backslashes `\\`, the row
+  splits exactly at the unescaped pipes, with or without border pipes, and the escaped backslashes that end the last
+  cell of a bordered row stay in that cell (F-C16-1, repaired in the code by commit cfd4612: `RE_END_BORDER` now
+  captures the run of backslashes before the closing pipe and `_split_row` puts it back; before the repair
+  `|a|b\\|` lost the `\\` of its last cell); the pipes inside one code span (`n` ticks … `n` ticks, no tick or
+  backslash inside) do not split;
 * alignment: `:--` left, `--:` right, `:-:` center, `---` none, for every number of dashes ≥ 1 and any padding.
 
-What is *not* claimed (and false for the code, see the examples at the end): that an escaped backslash before the
-closing border pipe survives; that the separator row needs a dash.
+What is *not* claimed (and false for the code, see the examples at the end): that the separator row needs a dash.
 -/
 import MdVerif.Model.Ext.Tables
 import MdVerif.Spec.Tables
@@ -87,8 +91,9 @@ example : ["a".toList, [], " b c ".toList] ≠ [] := by decide
 example : ∀ c ∈ ["a".toList, [], " b c ".toList], Plain c := by decide
 example : joinPipe ["a".toList, [], " b c ".toList] = "a|| b c ".toList := by decide
 
-/-- **C16 (escaped pipes).** Cells made of plain characters and escaped pipes `\|`, joined by pipes: the row
-    splits exactly into these cells — an escaped pipe never splits, every other pipe does. -/
+/-- **C16 (escaped pipes).** Cells made of plain characters, escaped pipes `\|` and escaped backslashes `\\`, joined
+    by pipes: the row splits exactly into these cells — an escaped pipe never splits, every other pipe does (also
+    the one after an escaped backslash). -/
 theorem C16_escaped_pipe (cs : List Str) (hne : cs ≠ []) (h : ∀ c ∈ cs, EscCell c) :
     split (joinPipe cs) = cs :=
   split_join cs hne h
@@ -97,6 +102,7 @@ example : EscCell "a\\|b \\|".toList := escCellB_sound _ (by decide +kernel)
 example : ∀ c ∈ ["a\\|b \\|".toList, "\\|".toList, "c".toList], EscCell c := by
   intro c hc; apply escCellB_sound; revert c; decide +kernel
 example : split "a\\|b \\||\\||c".toList = ["a\\|b \\|".toList, "\\|".toList, "c".toList] := by decide
+example : EscCell "a\\\\\\|b\\\\".toList := escCellB_sound _ (by decide +kernel)
 
 /-- the same with border pipes, as `_split_row` sees a row `|c1|…|cn|` once the header had a border -/
 theorem C16_bordered_row (cs : List Str) (hne : cs ≠ []) (h : ∀ c ∈ cs, EscCell c) (border : Nat)
@@ -106,11 +112,30 @@ theorem C16_bordered_row (cs : List Str) (hne : cs ≠ []) (h : ∀ c ∈ cs, Es
 example : (3 : Nat) ≠ 0 := by decide
 example : splitRow 3 "|a\\|b|c|".toList = ["a\\|b".toList, "c".toList] := by decide
 
+/-- **C16 (the closing border keeps escaped backslashes).** A bordered row whose last cell ends with `k` escaped
+    backslashes: `_split_row` yields the cells, the last one *with* its `k` escaped backslashes — only the border
+    pipe is removed.  (False before the repair of F-C16-1: the run of backslashes was deleted with the pipe.) -/
+theorem C16_end_border_keeps_backslashes (cs : List Str) (last : Str) (k : Nat) (border : Nat)
+    (h : ∀ c ∈ cs, EscCell c) (hl : EscCell last) (hb : border ≠ 0) :
+    splitRow border ('|' :: (joinPipe (cs ++ [last ++ escBackslashes k]) ++ ['|'])) =
+      cs ++ [last ++ escBackslashes k] :=
+  splitRow_bordered _ (by simp) (by
+    intro c hc
+    rcases List.mem_append.1 hc with hc | hc
+    · exact h c hc
+    · simp only [List.mem_singleton] at hc
+      subst hc; exact hl.append (EscCell.escBackslashes k)) border hb
+
+example : ∀ c ∈ ["a".toList, "x\\|y".toList], EscCell c := by
+  intro c hc; apply escCellB_sound; revert c; decide +kernel
+example : EscCell "b".toList := escCellB_sound _ (by decide +kernel)
+example : joinPipe (["a".toList] ++ ["b".toList ++ escBackslashes 2]) = "a|b\\\\\\\\".toList := by decide
+
 /-! ### pipes inside a code span do not split -/
 
 /-- **C16 (code span).** A cell `pre ++ n ticks ++ body ++ n ticks ++ post` (`n ≥ 1`) whose `body` has no backtick
-    and no backslash but any number of pipes, `pre` and `post` made of plain characters and escaped pipes, between
-    two such cells `a` and `b`: the row splits into exactly `a`, the cell, `b` — no pipe of `body` splits. -/
+    and no backslash but any number of pipes, `pre` and `post` made of plain characters, escaped pipes and escaped
+    backslashes, between two such cells `a` and `b`: the row splits into exactly `a`, the cell, `b` — no pipe of `body` splits. -/
 theorem C16_code_pipe (a pre body post b : Str) (n : Nat) (hn : 1 ≤ n)
     (ha : EscCell a) (hpre : EscCell pre) (hbody : CodeBody body) (hpost : EscCell post) (hb : EscCell b) :
     split (a ++ ['|'] ++ (pre ++ ticks n ++ body ++ ticks n ++ post) ++ ['|'] ++ b) =
@@ -166,9 +191,12 @@ example : split "a|x`p|q``y|b".toList = ["a".toList, "x`p".toList, "q``y".toList
 /-- an escaped tick run `\`` followed by ticks opens a code span with one tick less (the escaped one is text) -/
 example : split "a|x\\``p|q`y|b".toList = ["a".toList, "x\\``p|q`y".toList, "b".toList] := by decide
 
-/-- F-C16-1: with a border, the escaped backslash `\\` that ends the last cell is removed together with the
-    closing border pipe (`RE_END_BORDER` matches `\\|`): the cell `b\\` loses its content `\\`. -/
-example : splitRow 3 "|a|b\\\\|".toList = ["a".toList, "b".toList] := by decide
+/-- F-C16-1 (repaired): with a border, the escaped backslash `\\` that ends the last cell stays in the cell; only
+    the closing border pipe is removed.  (Before the repair the value was `["a", "b"]`.) -/
+example : splitRow 3 "|a|b\\\\|".toList = ["a".toList, "b\\\\".toList] := by decide
+
+/-- an odd run of backslashes before the last pipe escapes it: no closing border, the pipe stays in the cell -/
+example : splitRow 3 "|a|b\\|".toList = ["a".toList, "b\\|".toList] := by decide
 
 /-- the separator row needs no dash: `a|b` over a lone `|` is accepted as a table -/
 example : tableTest "a|b\n|".toList = some (0, [[], []]) := by decide
